@@ -451,6 +451,18 @@ def value_on_path(body, path, local=0, upto=None):
                     pl = rv["a"].get("move") or rv["a"].get("copy")
                     if pl is not None and not pl["proj"]:
                         return ("un", "Not", val(pl["l"], i - 1, hops + 1))
+                if ("bin" in rv or "cast" in rv) and hops < 24:
+                    # small expression trees (flag bytes): operands that are plain locals are read along the path
+                    def opv(o_):
+                        pl_ = o_.get("move") or o_.get("copy")
+                        if pl_ is not None and not pl_["proj"]:
+                            v_ = val(pl_["l"], i - 1, hops + 1)
+                            if v_ is not None:
+                                return v_
+                        return body.operand_term(o_)
+                    if "bin" in rv:
+                        return ("bin", rv["bin"], opv(rv["a"]), opv(rv["b"]))
+                    return ("cast", rv["cast"], opv(rv["a"]), rv["to"])
                 if "agg" in rv and rv["agg"]["kind"] in ("adt", "tuple") and rv["ops"]:
                     # operands that are plain locals are read along the path as well
                     t = body.rvalue_term(rv)
